@@ -33,3 +33,77 @@ func H_C09_escape() {
 	}
 	vReach("end")
 }
+
+//verif:witness H_C09_encoders end
+//verif:bound C09 all keys and string values through both encoders: JSONEncoder.AppendKey/AppendString and TextEncoder (top level and nested) with arbitrary bytes of length 0..2 for the key (value constant) or for the value (key constant); the emitted text between the delimiters must satisfy the same oracle as WriteLogString
+// H_C09_encoders: the escaping claim for every place a key or string value is written.
+func H_C09_encoders() {
+	k, v := "k", "v"
+	if vChoose("which", 2) == 0 {
+		k = vString("key", vChoose("klen", 3))
+	} else {
+		v = vString("val", vChoose("vlen", 3))
+	}
+	var buf bytes.Buffer
+	mode := vChoose("encoder", 3)
+	switch mode {
+	case 0: // JSON encoder: {"k":"v"}
+		enc := NewJSONEncoder(&buf)
+		enc.AppendEncoderBegin()
+		enc.AppendKey(k)
+		enc.AppendString(v)
+		enc.AppendEncoderEnd()
+	case 1: // text encoder, top level: k=v
+		enc := NewTextEncoder(&buf, "||")
+		enc.AppendEncoderBegin()
+		enc.AppendKey(k)
+		enc.AppendString(v)
+		enc.AppendEncoderEnd()
+	default: // text encoder, nested object: o={"k":"v"}
+		enc := NewTextEncoder(&buf, "||")
+		enc.AppendEncoderBegin()
+		enc.AppendKey("o")
+		enc.AppendObjectBegin()
+		enc.AppendKey(k)
+		enc.AppendString(v)
+		enc.AppendObjectEnd()
+		enc.AppendEncoderEnd()
+	}
+	out := buf.Bytes()
+	for i := 0; i < len(out); i++ {
+		vAssert(out[i] >= 0x20, "no-raw-control-byte")
+	}
+	wantK, wantV := vSanitize([]byte(k)), vSanitize([]byte(v))
+	if mode == 1 {
+		// k=v with both parts escaped: re-encode the expectation through the reference: decode each side
+		// split at the first unescaped '=' that follows the escaped key (the key's escaped length is known)
+		var kb bytes.Buffer
+		WriteLogString(&kb, k)
+		n := kb.Len()
+		vAssert(len(out) >= n+1 && out[n] == '=', "text-pair-shape")
+		if len(out) >= n+1 && out[n] == '=' {
+			gk, ok1 := vDecodeJSONStringBody(out[:n])
+			gv, ok2 := vDecodeJSONStringBody(out[n+1:])
+			vAssert(ok1 && ok2, "valid-escaped-text")
+			if ok1 && ok2 {
+				vAssert(vEqualCPs(gk, wantK) && vEqualCPs(gv, wantV), "decodes-to-sanitised-input")
+			}
+		}
+	} else {
+		start := 0
+		if mode == 2 {
+			vAssert(len(out) > 2 && out[0] == 'o' && out[1] == '=', "nested-object-shape")
+			start = 2
+		}
+		p := &vJP{b: out[start:], ok: true}
+		val := p.value(0)
+		vAssert(p.ok && val != nil && p.pos == len(out)-start, "valid-json-object")
+		if p.ok && val != nil && val.kind == 'o' && len(val.keys) == 1 {
+			vAssert(vEqualCPs(val.keys[0], wantK), "key-decodes-to-sanitised-input")
+			vAssert(val.vals[0].kind == 's' && vEqualCPs(val.vals[0].s, wantV), "value-decodes-to-sanitised-input")
+		} else {
+			vAssert(false, "object-with-one-member")
+		}
+	}
+	vReach("end")
+}
